@@ -247,6 +247,31 @@ class EvolventMachine(MachineMixin, RuleBasedStateMachine):
         self.check_returned("SetBounds (from the object's own arrays): ")
         self.last = "set_bounds"
 
+    @precondition(lambda self: self.ev is not None)
+    @rule(data=st.data(), bad=st.sampled_from(["inf", "nan", "longer"]))
+    def unusable_bounds(self, data, bad):
+        lo, _ = data.draw(bounds(self.n))
+        self.trace.append(["unusable_bounds", lo, bad])
+        self.step(self._unusable_bounds, lo, bad)
+
+    def _unusable_bounds(self, lo, bad):
+        """SetBounds with a usable lower and an unusable upper argument.  If the object rejects the call it must be
+        exactly as before (the model keeps the old box); if it takes the values as they are (the pinned code does not
+        validate), the caller puts the previous box back."""
+        hi = {"inf": [float("inf")] * self.n, "nan": [float("nan")] * self.n,
+              "longer": [v + 1.0 for v in lo] + [0.0]}[bad]
+        try:
+            self.ev.SetBounds(list(lo), hi)
+        except (ValueError, TypeError, IndexError):
+            self.cls.add("set_bounds-rejected")
+            self.nontrivial = True
+            self.last = "set_bounds (rejected)"
+            return
+        self.ev.SetBounds(list(self.lo), list(self.hi))
+        self.nbounds += 1
+        self.cls.add("unusable-bounds-accepted-then-restored")
+        self.last = "set_bounds"
+
     def teardown(self):
         self.finish()
 
